@@ -14,7 +14,8 @@ LEVEL = "model_checking"
 CODE = ["yowsup/layers/axolotl/layer_control.py:on_connected/onAuthed/on_disconnected/flush_keys/on_keys_flushed/onSentKeysError/onRequestKeysEncryptNotification/adjustId/adjustArray",
         "yowsup/axolotl/manager.py:level_prekeys/load_unsent_prekeys/set_prekeys_as_sent/generate_signed_prekey/load_latest_signed_prekey",
         "yowsup/axolotl/store/sqlite/liteprekeystore.py, litesignedprekeystore.py", "yowsup/layers/axolotl/protocolentities/iq_keys_set.py"]
-BOUNDS = {"quick": "[+ confirm: N in {1, 2, 812, 998, 999, 1000, 1001, 1624, 2436} keys x first id {1, 70000}] " 
+BOUNDS = {"quick": "[+ confirmation through {store, manager, manager with debug logging} for N<=812; existing database with 3 patterns of already uploaded keys] " 
+                   "[+ confirm: N in {1, 2, 812, 998, 999, 1000, 1001, 1624, 2436} keys x first id {1, 70000}] " 
                    "[+ a contact using a key of an unanswered upload (authenticated connection only)] " 
                    "adjustId: every id in [0, 2^32); flush_keys: every value of the 32-byte keys and the 64-byte signature, ids 1..2^24-2; histories of <= 6 events with generation batch 3 / refill threshold 2", "thorough": "histories of <= 8 events (10 after a login prefix)"}
 OUTSIDE = ["consumption of a prekey by an incoming first message (python-axolotl's SessionBuilder removes it; C03/C17 territory)", "id wrap-around at 2^24 (ids continue after the highest stored id; wrap is outside)",
